@@ -36,11 +36,20 @@ func (o *treeOracle) Cmp(a, b pred.Val) (int, bool) {
 		}
 		return 0, false
 	}
-	neg := false
+	neg, compl := false, false
 	if strings.HasPrefix(k, "~") { // key for the swapped pair
 		k, neg = k[1:], true
 	}
+	if strings.HasPrefix(k, "!") { // a single masked bit compared with the mask itself: equal exactly when the atom is non-zero
+		k, compl = k[1:], true
+	}
 	if v, ok := o.assign[k]; ok {
+		if compl {
+			if v == 0 {
+				return -1, true
+			}
+			return 0, true
+		}
 		if neg {
 			return -v, true
 		}
@@ -84,6 +93,13 @@ const maxLeaves = 243
 // extractTree enumerates the decision tree of fn. domain(key) lists the possible orders of an atom.
 func extractTree(prog *ssa.Program, fn *ssa.Function, mkArgs func() []pred.Val, sums map[string]pred.Summary,
 	fixed func(a, b pred.Val) (int, bool, bool), keyOf func(a, b pred.Val) (string, bool), domain func(key string) []int, prune ...func(assign map[string]int) bool) ([]leaf, error) {
+	return extractTreeWith(prog, fn, mkArgs, sums, fixed, keyOf, domain, nil, prune...)
+}
+
+// extractTreeWith is extractTree with a resolver for package-level literal tables.
+func extractTreeWith(prog *ssa.Program, fn *ssa.Function, mkArgs func() []pred.Val, sums map[string]pred.Summary,
+	fixed func(a, b pred.Val) (int, bool, bool), keyOf func(a, b pred.Val) (string, bool), domain func(key string) []int,
+	globals func(string) (pred.Val, bool), prune ...func(assign map[string]int) bool) ([]leaf, error) {
 	var leaves []leaf
 	var rec func(assign map[string]int) error
 	rec = func(assign map[string]int) error {
@@ -91,7 +107,7 @@ func extractTree(prog *ssa.Program, fn *ssa.Function, mkArgs func() []pred.Val, 
 			return fmt.Errorf("more than %d abstract valuations", maxLeaves)
 		}
 		o := &treeOracle{assign: assign, fixed: fixed, keyOf: keyOf}
-		ev := &pred.Evaluator{Prog: prog, Oracle: o, Summaries: sums}
+		ev := &pred.Evaluator{Prog: prog, Oracle: o, Summaries: sums, GlobalInit: globals}
 		out, err := ev.Eval(fn, mkArgs())
 		if err != nil && o.unknown != "" {
 			for _, v := range domain(o.unknown) {
